@@ -24,10 +24,11 @@ CHECKS["C15"] = {
         {"pkg": "pure", "test": "TestC15Balancer", "quick": 10000, "thorough": 400000, "shards_quick": 4, "shards_thorough": 8},
         {"pkg": "pure", "test": "TestC15Churn", "quick": 10000, "thorough": 400000, "shards_quick": 4, "shards_thorough": 8},
         {"pkg": "pure", "test": "TestC15Concurrent", "quick": 3000, "thorough": 100000, "shards_quick": 4, "shards_thorough": 8},
+        {"pkg": "pure", "test": "TestC15Window", "quick": 400, "thorough": 20000, "shards_quick": 4, "shards_thorough": 16},
     ],
     "engine": "PURE",
     "level_text": "Stateful property-based tests on the real LoadBalancedManager and its round-robin helper against an ordered-membership model: every selection is a currently registered upstream of exactly that endpoint, non-forwardable requests never get a remote node, every window of n selections over a stable set is a permutation, and a concurrent variant checks selections against registration intervals on a logical clock. Exploration only.",
-    "technique": "model-based stateful PBT (rapid), window-permutation oracle, interval-overlap oracle for concurrent runs",
+    "technique": "model-based stateful PBT (rapid), window-permutation oracle, interval-overlap oracle for concurrent runs; schedule-owning overlap of two operations at call-outs with a sequential-order (linearizability) oracle",
     "assumptions": ["each upstream object is registered at most once (as the upstream handler does)"],
 }
 CHECKS["C12"] = {
